@@ -70,7 +70,7 @@ fn recase_pattern(p: &str, style: usize) -> String {
     out
 }
 
-const INSERTS: [&str; 5] = [" ", "\t", "  ", " ;* c *; ", " ;** c* **; "];
+const INSERTS: [&str; 6] = [" ", "\t", "  ", " ;* c *; ", " ;** c* **; ", " ;* a ;* b ;* c *; b *; a *; "];
 
 /// byte offsets of the token boundaries of an instruction line (between two non-blank tokens,
 /// or inside existing blanks), where a blank may be added
@@ -237,7 +237,7 @@ fn judge(b: &Base, thorough: bool, l: &mut Local) {
             compare(&base_src, &base_out, &v, "extra-blank-at-every-token-boundary", b.family, l);
         }
     }
-    for tail in [" ; c", "\t;* c *;", "   ", " ;* c **;", " ;***;"] {
+    for tail in [" ; c", "\t;* c *;", "   ", " ;* c **;", " ;***;", " ;* a ;* b ;**; b *; a *;"] {
         let v = with_line(&b.prog, b.instr, format!("{}{}", line, tail));
         compare(&base_src, &base_out, &v, "trailing-comment", b.family, l);
     }
